@@ -19,6 +19,12 @@ def main(tier):
     # small-scope exhaustion: every legal body with <= 2 (thorough: 3) statement nodes, plain and wrapped in a loop with else
     small = pygen.modules_from_bodies(pygen.enum_function_bodies(3 if thorough else 2))
     mods += small
+    # frame compositions: every nesting (depth <= 2; depth 3 sampled, thorough: all) of try/finally, try/except(/else/finally),
+    # loops with and without a terminating else, with, if/elif/else, match around each terminator, code after every frame
+    fb2, _ = pygen.enum_frame_bodies(2)
+    fb3, _ = pygen.enum_frame_bodies(3, rng, None if thorough else 300)
+    n_sem = len(mods) + 12        # the semantics tie (PySem vs CPython) runs on the modules generated so far and a few frame modules
+    mods += pygen.modules_from_bodies(fb2 + (fb3[len(fb2):] if thorough else fb3 + pygen.routing_frame_bodies()))
     d = lib.fresh_dir("c01")
     cc.write_modules(mods, d)
     oracles = cc.gen_oracles(rng, n_orc)
@@ -32,12 +38,13 @@ def main(tier):
     cc.cpython_traces(mods, oracles)
     model_ok = False
     try:
-        model_ok = cc.coq_analyse(mods, "C01") and cc.coq_traces(mods, oracles, "C01") and cc.coq_build(mods, "C01")
+        model_ok = cc.coq_analyse(mods, "C01") and cc.coq_traces(mods[:n_sem], oracles, "C01") and cc.coq_build(mods, "C01")
     except Exception as e:
         ck.broken_ties.append("model evaluation failed: " + str(e)[-1500:])
 
     nviol = 0
     sem_mism = tie_mism = 0
+    suspects = []   # statements pyscn calls dead and the model calls live: candidates for a CPython witness
     for m in mods:
         defs = cc.def_table(m)
         for name, lst in defs.items():
@@ -69,8 +76,8 @@ def main(tier):
             if not model_ok:
                 continue
             # (2) semantics tie: Coq PySem vs CPython
-            ct = m["coq_traces"].get(k0, [])
-            for oi, (trace, outc) in enumerate(runs):
+            ct = m.get("coq_traces", {}).get(k0)
+            for oi, (trace, outc) in enumerate(runs if ct is not None else []):
                 oc, t = ct[oi]
                 t2 = [k for k in t if k not in nomark]
                 exp = "exc" if oc == 4 else "ok" if oc in (0, 1) else "other%d" % oc
@@ -95,9 +102,30 @@ def main(tier):
                 idd = cc.covered(k, ranges)
                 if md != idd:
                     tie_mism += 1
+                    if idd and not md and len(suspects) < 60:
+                        suspects.append((m, name, k0, k, ranges))
                     if tie_mism <= 3:
                         ck.broken_ties.append("model tie: statement line %d of %s in %s: model says %s, pyscn ranges %s say %s"
                                               % (k, name, m["path"], "dead" if md else "live", ranges, "dead" if idd else "live"))
+    # search for a failing input: drive CPython to the suspicious statements with many more oracles
+    if suspects and nviol == 0:
+        import json as _json, subprocess as _sp, sys as _sys, os as _os
+        extra = cc.gen_oracles(rng, 600, length=30)
+        for (m, name, k0, k, ranges) in suspects:
+            p = _sp.run([_sys.executable, _os.path.join(cc.HERE, "pyrun.py")], input=_json.dumps({"files": [m["path"]], "oracles": extra}),
+                        stdout=_sp.PIPE, stderr=_sp.PIPE, text=True, timeout=600)
+            if p.returncode != 0:
+                continue
+            runs = _json.loads(p.stdout)[m["path"]].get(str(k0), [])
+            hit = [(oi, tr) for oi, (tr, _o) in enumerate(runs) if k in tr]
+            if hit:
+                oi, tr = hit[0]
+                nviol += 1
+                ck.violation("statement at line %d of %s executes under CPython (oracle %s) but lies in a range pyscn reports as dead code: %s"
+                             % (k, name, extra[oi], [r for r in ranges if r[0] <= k <= r[1]]),
+                             {"kind": "live-flagged-dead", "file": m["path"], "source": m["lines"], "function": name,
+                              "oracle": extra[oi], "executed_line": k, "trace": tr, "dead_ranges": ranges, "found_by": "targeted oracle search"})
+                break
     # (4) graph-level model tie: Cfg/Builder.v finding ranges and complexity (all constructs) vs pyscn, exactly
     rng_mism = cx_mism = 0
     if model_ok:
